@@ -11,7 +11,9 @@ use tokio::io::{AsyncRead, ReadBuf};
 use crate::util::*;
 
 pub struct ChunkReader {
-    chunks: std::collections::VecDeque<Vec<u8>>,
+    /// None = one read fails with a transient error (WouldBlock / interrupted by a timeout layer), then the stream goes on
+    chunks: std::collections::VecDeque<Option<Vec<u8>>>,
+    pub transient: std::rc::Rc<std::cell::Cell<bool>>,
     fail: bool,
     reads: usize,
     max_reads: usize,
@@ -19,10 +21,15 @@ pub struct ChunkReader {
 
 impl ChunkReader {
     pub fn new(chunks: Vec<Vec<u8>>, fail: bool) -> Self {
-        let total: usize = chunks.iter().map(|c| c.len()).sum();
+        Self::with_interruptions(chunks.into_iter().map(Some).collect(), fail)
+    }
+
+    pub fn with_interruptions(chunks: Vec<Option<Vec<u8>>>, fail: bool) -> Self {
+        let total: usize = chunks.iter().map(|c| c.as_ref().map(|c| c.len()).unwrap_or(1)).sum();
         let n = chunks.len();
         ChunkReader {
-            chunks: chunks.into_iter().filter(|c| !c.is_empty()).collect(),
+            chunks: chunks.into_iter().filter(|c| c.as_ref().map(|c| !c.is_empty()).unwrap_or(true)).collect(),
+            transient: Default::default(),
             fail,
             reads: 0,
             // every read before the end makes progress, so this many reads mean a hang
@@ -43,12 +50,16 @@ impl ChunkReader {
                     Ok(Vec::new())
                 }
             }
-            Some(c) => {
+            Some(None) => {
+                self.transient.set(true);
+                Err(io::Error::new(io::ErrorKind::WouldBlock, "scripted transient failure"))
+            }
+            Some(Some(c)) => {
                 if c.len() <= space {
                     Ok(c)
                 } else {
                     let rest = c[space..].to_vec();
-                    self.chunks.push_front(rest);
+                    self.chunks.push_front(Some(rest));
                     Ok(c[..space].to_vec())
                 }
             }
@@ -134,14 +145,15 @@ pub fn run(toks: &[&str]) -> String {
     let flavour = toks[1];
     let extra: usize = toks[2].parse().unwrap_or(0);
     let fail = toks[3] == "err";
-    let mut chunks: Vec<Vec<u8>> = Vec::new();
+    let mut chunks: Vec<Option<Vec<u8>>> = Vec::new();
     if with_greeting {
-        chunks.push(GREETING.to_vec());
+        chunks.push(Some(GREETING.to_vec()));
     }
     for h in &toks[4..] {
-        chunks.push(unhex(h));
+        chunks.push(if *h == "!" { None } else { Some(unhex(h)) });
     }
-    let reader = ChunkReader::new(chunks, fail);
+    let reader = ChunkReader::with_interruptions(chunks, fail);
+    let transient = reader.transient.clone();
     let res = catch(move || {
         let mut out: Vec<String> = Vec::new();
         if flavour == "b" {
@@ -157,6 +169,9 @@ pub fn run(toks: &[&str]) -> String {
                 let (s, more) = show_outcome(conn.receive());
                 out.push(s);
                 if !more {
+                    if transient.replace(false) {
+                        continue;
+                    }
                     if left == 0 {
                         break;
                     }
@@ -178,6 +193,9 @@ pub fn run(toks: &[&str]) -> String {
                     let (s, more) = show_outcome(conn.receive().await);
                     out.push(s);
                     if !more {
+                        if transient.replace(false) {
+                            continue;
+                        }
                         if left == 0 {
                             break;
                         }
